@@ -305,6 +305,7 @@ type listEntry struct {
 	set            ival
 	dur            time.Duration // 0 = permanent
 	expiredQueried bool          // written after an IsAllowed query on exactly this key had seen an expired record
+	gen            int           // number of reloads (new IPManager over the same storage) before the entry was written
 }
 
 type ipmModel struct {
@@ -313,10 +314,12 @@ type ipmModel struct {
 	// keys (queried address strings) for which an IsAllowed query has observed an expired blacklist record
 	// since the key was last written
 	expiredSeen map[string]bool
+	gen         int          // reloads so far: every entry lives in the storage, so a reload must not change any answer
+	whiteGen    map[string]int
 }
 
 func newIPMModel() *ipmModel {
-	return &ipmModel{black: map[string]*listEntry{}, white: map[string]bool{}, expiredSeen: map[string]bool{}}
+	return &ipmModel{black: map[string]*listEntry{}, white: map[string]bool{}, expiredSeen: map[string]bool{}, whiteGen: map[string]int{}}
 }
 
 func (e *listEntry) live(iv ival) tri {
@@ -335,11 +338,21 @@ func (e *listEntry) live(iv ival) tri {
 
 func (m *ipmModel) addBlack(key string, iv ival, dur time.Duration) {
 	old := m.black[key]
-	m.black[key] = &listEntry{set: iv, dur: dur, expiredQueried: m.expiredSeen[key] || (old != nil && old.expiredQueried)}
+	m.black[key] = &listEntry{set: iv, dur: dur, expiredQueried: m.expiredSeen[key] || (old != nil && old.expiredQueried), gen: m.gen}
 	delete(m.expiredSeen, key)
 }
 func (m *ipmModel) removeBlack(key string) { delete(m.black, key); delete(m.expiredSeen, key) }
-func (m *ipmModel) addWhite(key string)    { m.white[key] = true }
+func (m *ipmModel) addWhite(key string)    { m.white[key] = true; m.whiteGen[key] = m.gen }
+
+// reload models a restart / second node: a new IPManager built over the same storage. Nothing changes in the
+// model; the asynchronous removals spawned by the old manager are gone with it.
+func (m *ipmModel) reload() {
+	m.gen++
+	m.expiredSeen = map[string]bool{}
+	for _, e := range m.black {
+		e.expiredQueried = false
+	}
+}
 func (m *ipmModel) removeWhite(key string) { delete(m.white, key) }
 
 // allowed returns the required answer of IsAllowed(ip) at iv, plus the root cause to name when the
@@ -347,6 +360,9 @@ func (m *ipmModel) removeWhite(key string) { delete(m.white, key) }
 func (m *ipmModel) allowed(ip string, iv ival, covers func(key, ip string) bool) (want tri, key string, why string) {
 	for _, k := range sortedKeys(m.white) {
 		if covers(k, ip) {
+			if m.whiteGen[k] < m.gen {
+				return Yes, "C18/blacklist/entry-not-reloaded-from-storage/whitelist-entry", "whitelist entry " + k + " was written before the reload"
+			}
 			return Yes, "C18/blacklist/whitelisted-address-refused", "whitelist entry " + k
 		}
 	}
@@ -376,6 +392,12 @@ func (m *ipmModel) allowed(ip string, iv ival, covers func(key, ip string) bool)
 	}
 	if liveEntry != nil {
 		switch {
+		case liveEntry.gen < m.gen && liveEntry.dur == 0:
+			return No, "C18/blacklist/entry-not-reloaded-from-storage/permanent-entry",
+				"permanent entry " + liveKey + " was written before the reload (new IPManager over the same storage) and no longer refuses the address"
+		case liveEntry.gen < m.gen:
+			return No, "C18/blacklist/entry-not-reloaded-from-storage/temporary-entry-still-running",
+				"unexpired entry " + liveKey + " was written before the reload (new IPManager over the same storage) and no longer refuses the address"
 		case liveEntry.expiredQueried && liveKey == ip:
 			return No, "C18/blacklist/async-remove-erases-readded-entry/IsAllowed-on-expired-record-then-AddToBlacklist",
 				"an earlier IsAllowed saw an expired record and spawned `go RemoveFromBlacklist(ip)`; the entry added afterwards is gone"
@@ -388,6 +410,9 @@ func (m *ipmModel) allowed(ip string, iv ival, covers func(key, ip string) bool)
 	}
 	if unknown {
 		return Unknown, "", ""
+	}
+	if m.gen > 0 && expiredOther != "" {
+		return Yes, "C18/blacklist/expired-entry-resurrected-by-reload", "only expired entries (" + expiredOther + ") cover the address, and the list was reloaded from the storage"
 	}
 	return Yes, "C18/blacklist/unlisted-address-refused", "no live blacklist entry covers the address"
 }
